@@ -166,6 +166,7 @@ CHECKS = {
             "replica-side fault model: ONE transient error from the replica's storage on a drawn replicated apply (the replication manager is handed a wrapper of the replica engine whose n-th PutInternal/DeleteInternal call fails once); the replica must still converge within the bound",
             "heartbeat configuration is generated: the default (10 s / 30 s) or 200 ms with a timeout of 0.7-2 s, with or without empty heartbeat messages, so that the idle periods of the trickle / idle_few / aged_burst phases exceed the timeout; huge single values (260 KiB - 1.5 MiB, at most 3 MiB per case) stay below gRPC's default 4 MiB receive limit of the replica, which the repository does not raise",
             "a child process killed by the Go runtime (fatal error / unrecovered panic) whose crashing goroutine has a repository frame is a violation (primary-process-died:* / replica-process-died:*), any other child death is an infrastructure error",
+            "hot_phase cases (1 in 5): 2000-4000 back-to-back single-key writes while two replicas open streams during the burst (their own reconnects after every batch with ReplicaConfig.Connection.RetryBaseDelay 20-50 ms instead of the default 1 s, a join, or a stop + restart executed by a second goroutine); a primary write that does not return within 30 s (normal: < 1 ms) is reported as the violation primary-write-blocked:at=<innermost repository frame> with the goroutine dump, although 'replicas must not block the primary' is C15's statement: the blocked write is what stands between the replicas and the primary's state",
             "aged_burst cases (1 in 7) keep a replica connected through 15-22 s of silence (15-16 s in the quick tier) before a burst of 150-400 writes; they use the default 10 s heartbeat while the heartbeat-backlog finding is open (flag idle_heartbeat_backlog)",
             "liveness is decided as bounded time: 60 s + 3 s per phase after the last write (the property's own 'tens of seconds on loopback'); measured convergence on a loaded machine is below 5 s",
             "primary and replicas run in one child process (separate engines, directories and replication managers) and talk over loopback TCP; a replica restart is Manager.Stop + Engine.Close + reopen of the same directory + new manager, not a process kill",
@@ -181,6 +182,7 @@ CHECKS = {
         "shrinktime": "150s",
         "assumptions": [
             "bounded-time statements: every primary client call returns within 10 s (measured normal: < 10 ms; up to 1.1 s while a healthy replica sits in its 1 s reconnect back-off, see notes), the faulty session leaves GetNodeInfo within 10 x the configured heartbeat timeout after the workload, healthy replicas converge within 60 s + 3 s per 100 steps",
+            "flapping_acker: a raw replica living short lives (4-8 goroutines acknowledging back to back with the session id; the CONNECTION is closed abruptly after 1-20 ms while acknowledgements are in flight), repeated until the end of the workload; its sessions must be gone from GetNodeInfo afterwards",
             "reconnect_storm: 1-4 client goroutines register and cancel streams in a tight loop while the heartbeat monitor runs every 1-5 ms (empty heartbeat messages off); a child process killed by the Go runtime whose crashing goroutine has a repository frame is a violation (primary-process-died:<first line>), not an infrastructure error; unsynchronised accesses that the runtime does not turn into a fatal error are not detected (no race-detector build: it would distort the latency bounds and multiply the wall time)",
             "faults are injected at application / TCP-proxy level on loopback: 'cut without FIN' = a user-space proxy that stops reading and forwarding while all sockets stay open; packet loss below TCP is not modelled",
             "clause 2 (dropped from the topology) is judged for replicas that are gone or silent for good (never reads, blackholed, reset, never acknowledges); a slow but live replica is observed only",
@@ -210,6 +212,8 @@ CHECKS = {
         "thorough": {"shards": 16, "rounds": 4, "checks": 600, "timeout": 3000},
         "shrinktime": "60s",
         "assumptions": [
+            "two finishers are queued behind a read of the same transaction that is delayed 2-30 ms inside the pass-through backend's Get; which of them reaches the transaction mutex first is observed, not controlled",
+            "about one case per process (a residue of a 64-bit draw, ~1/278) is a long-lived server: 1000-1500 client lives against one service instance with a 10 ms idle limit, choices from a PRNG seeded by the case",
             "registry and service calls of the driver go through tracking proxies; a call outstanding for 5 s of heartbeat time is the verdict registry_call_blocked:<call>",
             "a slow commit is produced by a 2-30 ms sleep inside the pass-through backend's ApplyBatch; the second finisher or cleanup starts only after the first has entered the storage, so the first always wins",
             "aged mode: idle limit 20-30 ms, lifetime limit 10x that, thresholds 75/90 or 50/75; every sweep is preceded by idle + 5 ms of sleep, age bands are reached by waiting and only counted, not judged",
